@@ -98,6 +98,9 @@ void harness(void)
     unsigned char in[VF_N + 1];
     unsigned n = nondet_uint();
     VF_ASSUME(n <= VF_N);
+#ifdef VF_EXACT_N
+    n = VF_N;                  /* long inputs: the converter alone decides, whatever the UTF-8 byte count */
+#endif
     for (unsigned i = 0; i < VF_N; i++) {
         unsigned char c = nondet_uchar();
         in[i] = (i < n) ? (c | (c == 0)) : 0;
